@@ -74,6 +74,12 @@ def sortedInts (l : List Int) (r : Bool) : List Int :=
   let s := l.mergeSort (fun a b => decide (a ≤ b))
   if r then s.reverse else s
 
+/-- `k not in d or d[k] != v` for a dictionary of settings keyed by effect (`!=` compares the setting texts) -/
+def dictNe (d : List (Nat × Setting)) (k : Nat) (v : Setting) : Bool :=
+  match (d.find? (fun kv => kv.1 == k)) with
+  | some kv => kv.2.txt != v.txt
+  | none => true
+
 /-- `l[i] = v`; IndexError outside `-len ≤ i < len` -/
 def setIdx {α : Type} (l : List α) (i : Int) (v : α) : Except Exc (List α) :=
   let j := if i < 0 then (l.length : Int) + i else i
